@@ -3,7 +3,7 @@ import json,sys
 d=json.load(open(sys.argv[1]))
 print(d['rule'], '[%s]'%d['signature'], d['detail'])
 print(' kind',d.get('kind'),'minimised', d.get('minimised'), 'cfg', d['case']['cfg'], d['case']['family'])
-for o in d['case']['script'][:int(sys.argv[3]) if len(sys.argv)>3 else 40]: print('   ',o)
+for o in (d['case'].get('script') or [])[:int(sys.argv[3]) if len(sys.argv)>3 else 40]: print('   ',o)
 n=int(sys.argv[2]) if len(sys.argv)>2 else 25
 print('\n'.join((d.get('events') or [])[-n:]))
 if d.get('crash'): print(d['crash'][-2500:])
